@@ -109,7 +109,11 @@ def sub_req(case):
             keys.append(k)
         for i, (val, conf) in enumerate(utxos):
             k = keys[i % nkeys]
-            txid = wh.utxo_txid(seed, i)
+            # outputs 2j and 2j+1 belong to ONE funding transaction when they have the same number of confirmations
+            # (confirmations are a property of the transaction)
+            pair = i - 1 if i % 2 else i + 1
+            shared = 0 <= pair < len(utxos) and utxos[pair][1] == conf
+            txid = wh.utxo_txid(seed, i // 2 if shared else 50 + i)
             w.utxo_add(k.address, val, txid, i % 2, confirmations=conf)
             if k.address not in own:
                 devs.append({'sig': 'setup|payment_key_not_owned_by_reference', 'detail': {'addr': k.address, 'path': k.path}})
@@ -137,7 +141,7 @@ def sub_req(case):
             try:
                 if method == 'send':
                     t = w.send(outputs, broadcast=False, **kw)
-                elif method == 'send_broadcast':
+                elif method in ('send_broadcast', 'send_twice'):
                     t = w.send(outputs, broadcast=True, **kw)
                 elif method == 'create':
                     t = w.transaction_create(outputs, **kw)
@@ -189,6 +193,28 @@ def sub_req(case):
             return {'devs': devs, 'out': 'refused:' + type(err).__name__, 'states': [_skey(case)], 'trans': 1,
                     'traces': 1, 'nt': []}
         devs += _judge(t, case, ledger, requested, own, net, explicit_fee, fee, method)
+        if method == 'send_twice' and getattr(t, 'pushed', False):
+            # the same request once more after the first transaction was sent: the ledger has lost the outputs the first
+            # one consumed and gained its change outputs (unconfirmed)
+            led2 = {op: u for op, u in ledger.items()
+                    if op not in [(i.prev_txid.hex(), i.output_n_int) for i in t.inputs]}
+            for o in t.outputs:
+                if o.address in own:
+                    led2[(t.txid, o.output_n)] = {'value': int(o.value), 'conf': 0, 'spk': own[o.address][1], 'address': o.address}
+            t2 = None
+            with wh.ForcedRandom(rnd.get('randint'), rnd.get('dirichlet'), rnd.get('shuffle', 'identity')):
+                try:
+                    t2 = w.send(outputs, broadcast=False, **dict(kw, min_confirms=0))
+                except (WalletError, TransactionError, ValueError, OverflowError, KeyError, IndexError, TypeError,
+                        AttributeError, ZeroDivisionError):
+                    t2 = None
+            if t2 is not None:
+                case2 = dict(case, req=dict(case['req'], min_confirms=0))
+                for d in _judge(t2, case2, led2, requested, own, net, explicit_fee, fee, 'send_twice'):
+                    d['sig'] = 'second|' + d['sig']
+                    devs.append(d)
+            elif sum(u['value'] for u in led2.values()) > 2 * sum(v for _, v in outputs) + 200000:
+                devs.append({'sig': 'second|refused_although_funds_are_ample', 'detail': {'case': case}})
         return {'devs': devs, 'out': 'tx:%din:%dout' % (len(t.inputs), len(t.outputs)), 'states': [_skey(case)],
                 'trans': 1, 'traces': 1, 'nt': [_skey(case)]}
     finally:
@@ -349,7 +375,7 @@ DIMS = {
     'recips': ['own', 'ext+ext2', 'ext+own', 'ext+ext'],
     'min_confirms': [0, 2],
     'max_utxos': [1, 2],
-    'method': ['create', 'send_broadcast', 'sweep', 'sweep_list', 'inputs_first', 'inputs_all', 'inputs_second',
+    'method': ['create', 'send_broadcast', 'send_twice', 'sweep', 'sweep_list', 'inputs_first', 'inputs_all', 'inputs_second',
                'inputs_first_obj', 'inputs_second_obj', 'inputs_all_obj', 'rbf_bump'],
 }
 RND_MENU = [{'randint': v, 'dirichlet': d, 'shuffle': s}
@@ -426,6 +452,14 @@ def run(ctx):
                 if q and r is not req1[0] and (hash_small(us) + hash_small(r) + len(kind)) % 3:
                     continue
                 cases.append({'kind': kind, 'wt': wt, 'seed': seed, 'utxos': us, 'req': r})
+    # two requests in a row where the first one must spend several outputs of ONE funding transaction
+    for kind, wt in configs:
+        for us in ([[60000, 10], [60000, 10]], [[60000, 10], [60000, 10], [70000, 10]],
+                   [[60000, 10], [60000, 10], [50000, 10], [50000, 10]]):
+            for amt in (100000, 'allbutfee') + (() if q else (65000, 115000)):
+                for mc in (1,) if q else (0, 1):
+                    cases.append({'kind': kind, 'wt': wt, 'seed': seed, 'utxos': us,
+                                  'req': dict(DEFAULT, method='send_twice', amount=amt, fee=2000, min_confirms=mc)})
     ctx.pmap('req', cases, chunk=4)
     ctx.note('bounds', {'configs': configs, 'utxo_sets_small': len(sets_small), 'rich_sets': len(rich),
                         'requests_1dev': len(req1), 'requests_2dev': len(req2) if req2 else 0,
